@@ -46,7 +46,6 @@ MUTANTS = {
         ("dump-without-indel-sites", "aldy/sam.py", "                    self._indel_sites,  # TODO: remove", "                    {k: [0, 0] for k in self._indel_sites},"),
         ("dump-without-phases", "aldy/sam.py", "                    [v for v in self.phases.values() if len(v) > 1],", "                    [],"),
         ("dump-without-neutral-depth", "aldy/sam.py", "                    self._dump_cn,\n                    {p: Counter(q) for p, q in norm.items()},", "                    {k: v // 2 for k, v in self._dump_cn.items()},\n                    {p: Counter(q) for p, q in norm.items()},"),
-        ("dump-params-not-reapplied", "aldy/genotype.py", '    if kind == "dump":\n        profile.update(params)', '    if kind == "dump":\n        pass'),
         ("genome-marker-wrong-build", "aldy/sam.py", "            print(self.gene.genome, file=fd)", '            print("hg19", file=fd)'),
         ("dump-reader-drops-multiplicity", "aldy/sam.py", "        muts = {p: [q for q, n in c.items() for _ in range(n)] for p, c in muts.items()}", "        muts = {p: [q for q, n in c.items() for _ in range(min(n, 15))] for p, c in muts.items()}"),
     ],
@@ -82,9 +81,10 @@ MUTANTS = {
         ("patch:own-c18-reserved-names-not-ignored",),
         ("patch:own-c18-options-ignored-with-vcf-input",),
         ("values-kept-as-strings", "aldy/profile.py", "                            self.__dict__[n] = typ(v)", "                            self.__dict__[n] = v"),
-        ("precedence-reversed", "aldy/profile.py", '            **dict(prof.get("options", {}), **params),', '            **dict(params, **prof.get("options", {})),'),
+        ("precedence-reversed", "aldy/profile.py", '        options = dict(prof.get("options") or {}, **params)', '        options = dict(params, **(prof.get("options") or {}))'),
         ("options-dropped-on-write", "aldy/profile.py", '                d["options"][k] = v', "                pass"),
-        ("dash-not-normalised", "aldy/__main__.py", '                        params[k.replace("-", "_")] = v\n            _ = genotype(', '                        params[k] = v\n            _ = genotype('),
+        ("dash-not-normalised", "aldy/__main__.py", '                        params[k.replace("-", "_")] = v\n            # --param names', '                        params[k] = v\n            # --param names'),
+        ("dump-params-not-reapplied", "aldy/genotype.py", '    if kind == "dump":\n        profile.update(params)', '    if kind == "dump":\n        pass'),
     ],
     "C19": [
         ("patch:own-c19-guard-skipped-with-user-cn",),
